@@ -374,7 +374,7 @@ theorem resolveFp_fpOf (env : Env) (w : Written) (spec : List String) (had : Boo
     resolveFp env (fpOf env w spec had) = resolve env w := by
   obtain ⟨fo, ml, nl, ov⟩ := w
   simp only [resolveFp, fpOf, resolve]
-  cases ml <;> cases nl <;> cases ov <;> simp [intOf, ite_le_zero]
+  cases ml <;> cases nl <;> cases ov <;> simp only [intOf] <;> grind
 
 /-- Written font tokens are STRING tokens. -/
 def Written.FontOK (w : Written) : Prop := ∀ t, w.font? = some t → t.type = .STRING
@@ -504,13 +504,24 @@ theorem fnp_step (f : Nat) (fp : FmtParams) (s : PState) (c : Tok) (n : NamedP) 
       Facts.formatParamFontId, Facts.formatParamMaxLineLength, Facts.formatParamNumLines,
       Facts.formatParamCursorOverlapWidth, h1, h2, h3, h4, hnew, h6, h7]
 
+theorem PName.str_mem' (a : PName) : a.str ∈ Facts.namedParameters := by
+  cases a <;> decide
+
+/-- (`l` is a variable on purpose: with `nameTok.lit` in its place `simp` unfolds string literals.) -/
+theorem fnp_unknown' (f : Nat) (fp : FmtParams) (s : PState) (c nameTok : Tok) (tl : List Tok)
+    (l : String) (h1 : nameTok.type = .IDENT) (hl : nameTok.lit = l)
+    (h2 : l ∉ Facts.namedParameters) :
+    (formatNamedParams (f + 1) fp).run (st s (c :: nameTok :: tl)) =
+      .error (newParseError nameTok s!"invalid format() named parameter '{l}'") := by
+  rw [formatNamedParams]
+  simp [h1, hl, h2]
+
 /-- An identifier that is not one of the four names: error at that identifier. -/
 theorem fnp_unknown (f : Nat) (fp : FmtParams) (s : PState) (c nameTok : Tok) (tl : List Tok)
-    (h1 : nameTok.type = .IDENT) (h2 : Facts.namedParameters.contains nameTok.lit = false) :
+    (h1 : nameTok.type = .IDENT) (h2 : nameTok.lit ∉ Facts.namedParameters) :
     (formatNamedParams (f + 1) fp).run (st s (c :: nameTok :: tl)) =
-      .error (newParseError nameTok s!"invalid format() named parameter '{nameTok.lit}'") := by
-  rw [formatNamedParams]
-  simp [h1, h2]
+      .error (newParseError nameTok s!"invalid format() named parameter '{nameTok.lit}'") :=
+  fnp_unknown' f fp s c nameTok tl _ h1 rfl h2
 
 /-- A known name not followed by `=`: error at the token after the name. -/
 theorem fnp_noassign (f : Nat) (fp : FmtParams) (s : PState) (c nameTok nx : Tok) (tl : List Tok)
@@ -519,7 +530,11 @@ theorem fnp_noassign (f : Nat) (fp : FmtParams) (s : PState) (c nameTok nx : Tok
     (formatNamedParams (f + 1) fp).run (st s (c :: nameTok :: nx :: tl)) =
       .error (newParseError nx s!"missing '=' after format() named parameter '{name.str}'") := by
   rw [formatNamedParams]
-  simp [h1, h2, h3, PName.str_mem]
+  have hm := PName.str_mem' name
+  simp only [StateT.run_bind, run_peekIs, st_toks, getD_one, h1, ex_bind_ok, beq_self_eq_true,
+    Bool.not_true, Bool.false_eq_true, if_false, run_nextToken, List.tail_cons, st_st, run_cur,
+    List.headD_cons, List.contains_eq_mem, h2, hm, decide_true, if_true, run_fail,
+    ex_bind_err, run_expectPeek, h3, beq_iff_eq, run_peek, Bool.not_false]
 
 /-- A name that was already given (by name, or as the first positional parameter): error at the
 name token. -/
@@ -529,7 +544,11 @@ theorem fnp_dup (f : Nat) (fp : FmtParams) (s : PState) (c nameTok eq : Tok) (tl
     (formatNamedParams (f + 1) fp).run (st s (c :: nameTok :: eq :: tl)) =
       .error (newParseError nameTok s!"duplicate parameter '{name.str}'") := by
   rw [formatNamedParams]
-  simp [h1, h2, h3, PName.str_mem, hdup]
+  have hm := PName.str_mem' name
+  simp only [StateT.run_bind, run_peekIs, st_toks, getD_one, h1, ex_bind_ok, beq_self_eq_true,
+    Bool.not_true, Bool.false_eq_true, if_false, run_nextToken, List.tail_cons, st_st, run_cur,
+    List.headD_cons, List.contains_eq_mem, h2, hm, decide_true, if_true, run_fail,
+    ex_bind_err, run_expectPeek, h3, beq_iff_eq, hdup]
 
 def badValueMsg (name : PName) (lit : String) : String :=
   match name with
@@ -613,286 +632,5 @@ theorem fnp_all (ns : List NamedP) (f : Nat) (fp : FmtParams) (s : PState) (c nx
     (formatNamedParams (ns.length + (f + 1)) fp).run (st s (c :: printNamed ns ++ nx :: tl)) =
       .ok (ns.foldl applyNamed fp, st s (lastTok c ns :: nx :: tl)) := by
   rw [fnp_prefix ns (f + 1) fp s c nx tl hwf hnd hnew hlast, fnp_stop _ _ _ _ _ _ hnx]
-
-/-! ### `parseFormatStringOperator` up to the named-parameter loop, shape by shape -/
-
-def styLit (sty : Option Tok) : String :=
-  match sty with
-  | some t => t.lit
-  | none => ""
-
-section
-variable (env : Env) (fuel : Nat) (s : PState) (fm lp : Tok) (sty : Option Tok) (text : Tok)
-  (hlp : lp.type = .LPAREN) (hsty : ∀ t, sty = some t → t.type = .STRINGTYPE)
-  (htext : text.type = .STRING)
-include hlp hsty htext
-
-/-- `format("t", name…` -/
-theorem reach_none (c nt : Tok) (tl : List Tok) (hc : c.type = .COMMA)
-    (hnt1 : nt.type ≠ .INT) (hnt2 : nt.type ≠ .STRING) :
-    (parseFormatStringOperator env fuel).run
-        (st s (fm :: lp :: (sty.toList ++ text :: c :: nt :: tl))) =
-      (formatNamedParams fuel (fpOf env {} [] false) >>= namedTail env text (styLit sty)).run
-        (st s (c :: nt :: tl)) := by
-  cases sty with
-  | none =>
-    simp [parseFormatStringOperator, namedTail, tailM, fpOf, fontOf, intOf, styLit, hlp, htext, hc,
-      hnt1, hnt2]
-    rfl
-  | some t =>
-    have h := hsty t rfl
-    simp [parseFormatStringOperator, namedTail, tailM, fpOf, fontOf, intOf, styLit, hlp, htext, hc,
-      hnt1, hnt2, h]
-    rfl
-
-/-- `format("t", "font", name…` -/
-theorem reach_font (c1 fnt c nt : Tok) (tl : List Tok) (hc1 : c1.type = .COMMA)
-    (hf : fnt.type = .STRING) (hc : c.type = .COMMA) (hnt : nt.type = .IDENT) :
-    (parseFormatStringOperator env fuel).run
-        (st s (fm :: lp :: (sty.toList ++ text :: c1 :: fnt :: c :: nt :: tl))) =
-      (formatNamedParams fuel (fpOf env { font? := some fnt } ["fontId"] true) >>=
-        namedTail env text (styLit sty)).run (st s (c :: nt :: tl)) := by
-  cases sty with
-  | none =>
-    simp [parseFormatStringOperator, namedTail, tailM, fpOf, fontOf, intOf, styLit, hlp, htext, hc1,
-      hf, hc, hnt, Facts.formatParamFontId]
-    rfl
-  | some t =>
-    have h := hsty t rfl
-    simp [parseFormatStringOperator, namedTail, tailM, fpOf, fontOf, intOf, styLit, hlp, htext, hc1,
-      hf, hc, hnt, h, Facts.formatParamFontId]
-    rfl
-
-/-- `format("t", 100, name…` -/
-theorem reach_len (c1 n c nt : Tok) (tl : List Tok) (hc1 : c1.type = .COMMA)
-    (hn : n.type = .INT) (hc : c.type = .COMMA) (hnt : nt.type = .IDENT) :
-    (parseFormatStringOperator env fuel).run
-        (st s (fm :: lp :: (sty.toList ++ text :: c1 :: n :: c :: nt :: tl))) =
-      (formatNamedParams fuel (fpOf env { maxLen? := some n } ["maxLineLength"] true) >>=
-        namedTail env text (styLit sty)).run (st s (c :: nt :: tl)) := by
-  cases sty with
-  | none =>
-    simp [parseFormatStringOperator, namedTail, tailM, fpOf, fontOf, intOf, valOf, styLit, hlp,
-      htext, hc1, hn, hc, hnt, Facts.formatParamMaxLineLength]
-    rfl
-  | some t =>
-    have h := hsty t rfl
-    simp [parseFormatStringOperator, namedTail, tailM, fpOf, fontOf, intOf, valOf, styLit, hlp,
-      htext, hc1, hn, hc, hnt, h, Facts.formatParamMaxLineLength]
-    rfl
-
-/-- `format("t", "font", 100, …` (whatever follows the last comma) -/
-theorem reach_fontLen (c1 fnt c2 n c nt : Tok) (tl : List Tok) (hc1 : c1.type = .COMMA)
-    (hf : fnt.type = .STRING) (hc2 : c2.type = .COMMA) (hn : n.type = .INT) (hc : c.type = .COMMA) :
-    (parseFormatStringOperator env fuel).run
-        (st s (fm :: lp :: (sty.toList ++ text :: c1 :: fnt :: c2 :: n :: c :: nt :: tl))) =
-      (formatNamedParams fuel (fpOf env { font? := some fnt, maxLen? := some n } ["fontId"] true) >>=
-        namedTail env text (styLit sty)).run (st s (c :: nt :: tl)) := by
-  cases sty with
-  | none =>
-    simp [parseFormatStringOperator, namedTail, tailM, fpOf, fontOf, intOf, valOf, styLit, hlp,
-      htext, hc1, hf, hc2, hn, hc, Facts.formatParamFontId]
-    rfl
-  | some t =>
-    have h := hsty t rfl
-    simp [parseFormatStringOperator, namedTail, tailM, fpOf, fontOf, intOf, valOf, styLit, hlp,
-      htext, hc1, hf, hc2, hn, hc, h, Facts.formatParamFontId]
-    rfl
-
-/-- `format("t", 100, "font", …` (whatever follows the last comma) -/
-theorem reach_lenFont (c1 n c2 fnt c nt : Tok) (tl : List Tok) (hc1 : c1.type = .COMMA)
-    (hn : n.type = .INT) (hc2 : c2.type = .COMMA) (hf : fnt.type = .STRING) (hc : c.type = .COMMA) :
-    (parseFormatStringOperator env fuel).run
-        (st s (fm :: lp :: (sty.toList ++ text :: c1 :: n :: c2 :: fnt :: c :: nt :: tl))) =
-      (formatNamedParams fuel
-          (fpOf env { font? := some fnt, maxLen? := some n } ["maxLineLength"] true) >>=
-        namedTail env text (styLit sty)).run (st s (c :: nt :: tl)) := by
-  cases sty with
-  | none =>
-    simp [parseFormatStringOperator, namedTail, tailM, fpOf, fontOf, intOf, valOf, styLit, hlp,
-      htext, hc1, hf, hc2, hn, hc, Facts.formatParamMaxLineLength]
-    rfl
-  | some t =>
-    have h := hsty t rfl
-    simp [parseFormatStringOperator, namedTail, tailM, fpOf, fontOf, intOf, valOf, styLit, hlp,
-      htext, hc1, hf, hc2, hn, hc, h, Facts.formatParamMaxLineLength]
-    rfl
-
-/-- All five prefixes at once. -/
-theorem reach (pos : Pos) (c nt : Tok) (tl : List Tok) (hpos : pos.WF) (hc : c.type = .COMMA)
-    (hnt : pos.ReachOK nt) :
-    (parseFormatStringOperator env fuel).run
-        (st s (fm :: lp :: (sty.toList ++ text :: (pos.toks ++ c :: nt :: tl)))) =
-      (formatNamedParams fuel (fpOf env pos.written pos.spec pos.had) >>=
-        namedTail env text (styLit sty)).run (st s (c :: nt :: tl)) := by
-  cases pos with
-  | none => exact reach_none env fuel s fm lp sty text hlp hsty htext c nt tl hc hnt.1 hnt.2
-  | font c1 f =>
-    exact reach_font env fuel s fm lp sty text hlp hsty htext c1 f c nt tl hpos.1 hpos.2 hc hnt
-  | len c1 n =>
-    exact reach_len env fuel s fm lp sty text hlp hsty htext c1 n c nt tl hpos.1 hpos.2 hc hnt
-  | fontLen c1 f c2 n =>
-    exact reach_fontLen env fuel s fm lp sty text hlp hsty htext c1 f c2 n c nt tl hpos.1 hpos.2.1
-      hpos.2.2.1 hpos.2.2.2 hc
-  | lenFont c1 n c2 f =>
-    exact reach_lenFont env fuel s fm lp sty text hlp hsty htext c1 n c2 f c nt tl hpos.1 hpos.2.1
-      hpos.2.2.1 hpos.2.2.2 hc
-
-/-! ### positional parameters only -/
-
-/-- `format("t" x` -/
-theorem posOnly_none (x : Tok) (rest : List Tok) (hx : x.type ≠ .COMMA) :
-    (parseFormatStringOperator env fuel).run (st s (fm :: lp :: (sty.toList ++ text :: x :: rest))) =
-      (tailM env text (styLit sty) (fpOf env {} [] false)).run (st s (text :: x :: rest)) := by
-  cases sty with
-  | none =>
-    simp [parseFormatStringOperator, tailM, fpOf, fontOf, intOf, styLit, hlp, htext, hx]
-    rfl
-  | some t =>
-    have h := hsty t rfl
-    simp [parseFormatStringOperator, tailM, fpOf, fontOf, intOf, styLit, hlp, htext, hx, h]
-    rfl
-
-/-- `format("t", "font" x` -/
-theorem posOnly_font (c1 fnt x : Tok) (rest : List Tok) (hc1 : c1.type = .COMMA)
-    (hf : fnt.type = .STRING) (hx : x.type ≠ .COMMA) :
-    (parseFormatStringOperator env fuel).run
-        (st s (fm :: lp :: (sty.toList ++ text :: c1 :: fnt :: x :: rest))) =
-      (tailM env text (styLit sty) (fpOf env { font? := some fnt } ["fontId"] true)).run
-        (st s (fnt :: x :: rest)) := by
-  cases sty with
-  | none =>
-    simp [parseFormatStringOperator, tailM, fpOf, fontOf, intOf, styLit, hlp, htext, hx, hc1, hf,
-      Facts.formatParamFontId]
-    rfl
-  | some t =>
-    have h := hsty t rfl
-    simp [parseFormatStringOperator, tailM, fpOf, fontOf, intOf, styLit, hlp, htext, hx, hc1, hf, h,
-      Facts.formatParamFontId]
-    rfl
-
-/-- `format("t", 100 x` -/
-theorem posOnly_len (c1 n x : Tok) (rest : List Tok) (hc1 : c1.type = .COMMA)
-    (hn : n.type = .INT) (hx : x.type ≠ .COMMA) :
-    (parseFormatStringOperator env fuel).run
-        (st s (fm :: lp :: (sty.toList ++ text :: c1 :: n :: x :: rest))) =
-      (tailM env text (styLit sty) (fpOf env { maxLen? := some n } ["maxLineLength"] true)).run
-        (st s (n :: x :: rest)) := by
-  cases sty with
-  | none =>
-    simp [parseFormatStringOperator, tailM, fpOf, fontOf, intOf, valOf, styLit, hlp, htext, hx, hc1,
-      hn, Facts.formatParamMaxLineLength]
-    rfl
-  | some t =>
-    have h := hsty t rfl
-    simp [parseFormatStringOperator, tailM, fpOf, fontOf, intOf, valOf, styLit, hlp, htext, hx, hc1,
-      hn, h, Facts.formatParamMaxLineLength]
-    rfl
-
-/-- `format("t", "font", 100 x` -/
-theorem posOnly_fontLen (c1 fnt c2 n x : Tok) (rest : List Tok) (hc1 : c1.type = .COMMA)
-    (hf : fnt.type = .STRING) (hc2 : c2.type = .COMMA) (hn : n.type = .INT) (hx : x.type ≠ .COMMA) :
-    (parseFormatStringOperator env fuel).run
-        (st s (fm :: lp :: (sty.toList ++ text :: c1 :: fnt :: c2 :: n :: x :: rest))) =
-      (tailM env text (styLit sty)
-        (fpOf env { font? := some fnt, maxLen? := some n } ["fontId"] true)).run
-        (st s (n :: x :: rest)) := by
-  cases sty with
-  | none =>
-    simp [parseFormatStringOperator, tailM, fpOf, fontOf, intOf, valOf, styLit, hlp, htext, hx, hc1,
-      hf, hc2, hn, Facts.formatParamFontId]
-    rfl
-  | some t =>
-    have h := hsty t rfl
-    simp [parseFormatStringOperator, tailM, fpOf, fontOf, intOf, valOf, styLit, hlp, htext, hx, hc1,
-      hf, hc2, hn, h, Facts.formatParamFontId]
-    rfl
-
-/-- `format("t", 100, "font" x` -/
-theorem posOnly_lenFont (c1 n c2 fnt x : Tok) (rest : List Tok) (hc1 : c1.type = .COMMA)
-    (hn : n.type = .INT) (hc2 : c2.type = .COMMA) (hf : fnt.type = .STRING) (hx : x.type ≠ .COMMA) :
-    (parseFormatStringOperator env fuel).run
-        (st s (fm :: lp :: (sty.toList ++ text :: c1 :: n :: c2 :: fnt :: x :: rest))) =
-      (tailM env text (styLit sty)
-        (fpOf env { font? := some fnt, maxLen? := some n } ["maxLineLength"] true)).run
-        (st s (fnt :: x :: rest)) := by
-  cases sty with
-  | none =>
-    simp [parseFormatStringOperator, tailM, fpOf, fontOf, intOf, valOf, styLit, hlp, htext, hx, hc1,
-      hf, hc2, hn, Facts.formatParamMaxLineLength]
-    rfl
-  | some t =>
-    have h := hsty t rfl
-    simp [parseFormatStringOperator, tailM, fpOf, fontOf, intOf, valOf, styLit, hlp, htext, hx, hc1,
-      hf, hc2, hn, h, Facts.formatParamMaxLineLength]
-    rfl
-
-/-- All five prefixes at once. -/
-theorem posOnly (pos : Pos) (x : Tok) (rest : List Tok) (hpos : pos.WF) (hx : x.type ≠ .COMMA) :
-    (parseFormatStringOperator env fuel).run
-        (st s (fm :: lp :: (sty.toList ++ text :: (pos.toks ++ x :: rest)))) =
-      (tailM env text (styLit sty) (fpOf env pos.written pos.spec pos.had)).run
-        (st s (pos.lastTok text :: x :: rest)) := by
-  cases pos with
-  | none => exact posOnly_none env fuel s fm lp sty text hlp hsty htext x rest hx
-  | font c1 f =>
-    exact posOnly_font env fuel s fm lp sty text hlp hsty htext c1 f x rest hpos.1 hpos.2 hx
-  | len c1 n =>
-    exact posOnly_len env fuel s fm lp sty text hlp hsty htext c1 n x rest hpos.1 hpos.2 hx
-  | fontLen c1 f c2 n =>
-    exact posOnly_fontLen env fuel s fm lp sty text hlp hsty htext c1 f c2 n x rest hpos.1 hpos.2.1
-      hpos.2.2.1 hpos.2.2.2 hx
-  | lenFont c1 n c2 f =>
-    exact posOnly_lenFont env fuel s fm lp sty text hlp hsty htext c1 n c2 f x rest hpos.1 hpos.2.1
-      hpos.2.2.1 hpos.2.2.2 hx
-
-/-! ### rejections before the named-parameter loop -/
-
-/-- No `(` after `format`: range error from the `format` token to the next one. -/
-theorem reject_no_lparen (x : Tok) (rest : List Tok) (hx : x.type ≠ .LPAREN) :
-    (parseFormatStringOperator env fuel).run (st s (fm :: x :: rest)) =
-      .error (newRangeParseError fm x "format operator must begin with an open parenthesis '('") := by
-  simp [parseFormatStringOperator, hx]
-
-/-- No string literal: error at the offending token. -/
-theorem reject_no_text (x : Tok) (rest : List Tok) (hx : x.type ≠ .STRING)
-    (hx2 : sty = none → x.type ≠ .STRINGTYPE) :
-    (parseFormatStringOperator env fuel).run (st s (fm :: lp :: (sty.toList ++ x :: rest))) =
-      .error (newParseError x s!"invalid format() argument '{x.lit}'. Expected a string literal") := by
-  cases sty with
-  | none =>
-    have h := hx2 rfl
-    simp [parseFormatStringOperator, hlp, h, hx]
-  | some t =>
-    have h := hsty t rfl
-    simp [parseFormatStringOperator, hlp, h, hx]
-
-/-- `format("t", "font", x` with `x` neither a length nor a name: error at `x`. -/
-theorem reject_after_font (c1 fnt c2 x : Tok) (rest : List Tok) (hc1 : c1.type = .COMMA)
-    (hf : fnt.type = .STRING) (hc2 : c2.type = .COMMA) (hx1 : x.type ≠ .IDENT)
-    (hx2 : x.type ≠ .INT) :
-    (parseFormatStringOperator env fuel).run
-        (st s (fm :: lp :: (sty.toList ++ text :: c1 :: fnt :: c2 :: x :: rest))) =
-      .error (newParseError x s!"invalid format() maxLineLength '{x.lit}'. Expected integer") := by
-  cases sty with
-  | none => simp [parseFormatStringOperator, hlp, htext, hc1, hf, hc2, hx1, hx2]
-  | some t =>
-    have h := hsty t rfl
-    simp [parseFormatStringOperator, hlp, htext, hc1, hf, hc2, hx1, hx2, h]
-
-/-- `format("t", 100, x` with `x` neither a font id nor a name: error at `x`. -/
-theorem reject_after_len (c1 n c2 x : Tok) (rest : List Tok) (hc1 : c1.type = .COMMA)
-    (hn : n.type = .INT) (hc2 : c2.type = .COMMA) (hx1 : x.type ≠ .IDENT)
-    (hx2 : x.type ≠ .STRING) :
-    (parseFormatStringOperator env fuel).run
-        (st s (fm :: lp :: (sty.toList ++ text :: c1 :: n :: c2 :: x :: rest))) =
-      .error (newParseError x s!"invalid format() fontId '{x.lit}'. Expected string") := by
-  cases sty with
-  | none => simp [parseFormatStringOperator, hlp, htext, hc1, hn, hc2, hx1, hx2]
-  | some t =>
-    have h := hsty t rfl
-    simp [parseFormatStringOperator, hlp, htext, hc1, hn, hc2, hx1, hx2, h]
-
-end
 
 end Pory.C07b
